@@ -15,28 +15,41 @@ theorem ofLeBytes_leBytes (k n : Nat) : ofLeBytes (leBytes k n) = n % 256 ^ k :=
       simp [UInt8.toNat_ofNat']
     rw [h1, Nat.pow_succ, Nat.mul_comm (256 ^ k) 256, Nat.mod_mul]
 
-theorem lt_pow_sigBytes (n : Nat) : n < 256 ^ sigBytes n := by
-  induction n using Nat.strongRecOn with
-  | _ n ih =>
-    unfold sigBytes
+theorem lt_pow_sigBytesAux : ∀ (f n : Nat), n ≤ f → n < 256 ^ sigBytesAux f n := by
+  intro f
+  induction f with
+  | zero => intro n h; have : n = 0 := by omega
+            subst this; simp [sigBytesAux]
+  | succ f ih =>
+    intro n h
+    simp only [sigBytesAux]
     split
     · subst_vars; simp
-    · rename_i h
+    · rename_i hn
       have := ih (n / 256) (by omega)
       rw [Nat.add_comm, Nat.pow_succ]
       omega
 
-theorem sigBytes_le {n N : Nat} (h : n < 256 ^ N) : sigBytes n ≤ N := by
-  induction N generalizing n with
-  | zero => simp at h; subst h; simp [sigBytes]
-  | succ N ih =>
-    unfold sigBytes
+theorem lt_pow_sigBytes (n : Nat) : n < 256 ^ sigBytes n := lt_pow_sigBytesAux n n (Nat.le_refl n)
+
+theorem sigBytesAux_le : ∀ (f n N : Nat), n < 256 ^ N → sigBytesAux f n ≤ N := by
+  intro f
+  induction f with
+  | zero => intro n N _; simp [sigBytesAux]
+  | succ f ih =>
+    intro n N h
+    simp only [sigBytesAux]
     split
     · omega
-    · have : n / 256 < 256 ^ N := by
-        rw [Nat.pow_succ] at h; omega
-      have := ih this
-      omega
+    · rename_i hn
+      cases N with
+      | zero => simp at h; omega
+      | succ N =>
+        have : n / 256 < 256 ^ N := by rw [Nat.pow_succ] at h; omega
+        have := ih _ _ this
+        omega
+
+theorem sigBytes_le {n N : Nat} (h : n < 256 ^ N) : sigBytes n ≤ N := sigBytesAux_le n n N h
 
 theorem sigBytes_lt_256 {n : Nat} (h : sigBytes n < 2) : n < 256 := by
   have := lt_pow_sigBytes n
